@@ -99,8 +99,23 @@ def shape_for_other(n1, n2, n3, c1, c2):       # for n1 in n2: n3 = n3 + n2   (t
     return mod(ast.For(target=S(n1), iter=N(n2), body=[body], orelse=[], lineno=1, col_offset=0))
 
 
+def shape_four(n1, n2, n3, c1, c2):            # n1 = c1 / n2 = n2 + c2 / n3(n1) / n1 = n1 + c2
+    return mod(assign(n1, K(c1), 1),
+               assign(n2, ast.BinOp(left=N(n2, line=2), op=ast.Add(), right=K(c2, 2), lineno=2, col_offset=0), 2),
+               ast.Expr(value=ast.Call(func=N(n3, line=3), args=[N(n1, line=3)], keywords=[], lineno=3, col_offset=0),
+                        lineno=3, col_offset=0),
+               assign(n1, ast.BinOp(left=N(n1, line=4), op=ast.Add(), right=K(c2, 4), lineno=4, col_offset=0), 4))
+
+
+def shape_call3(n1, n2, n3, c1, c2):           # f(n1, n2 + c1, g(n1), n3 + c1)
+    args = [N(n1), ast.BinOp(left=N(n2), op=ast.Add(), right=K(c1), lineno=1, col_offset=0),
+            ast.Call(func=N("g"), args=[N(n1)], keywords=[], lineno=1, col_offset=0),
+            ast.BinOp(left=N(n3), op=ast.Add(), right=K(c1), lineno=1, col_offset=0)]
+    return mod(ast.Expr(value=ast.Call(func=N("f"), args=args, keywords=[], lineno=1, col_offset=0), lineno=1, col_offset=0))
+
+
 SHAPES = [shape_binop_add, shape_binop_mult, shape_binop_sub, shape_augassign, shape_if, shape_for, shape_call,
-          shape_method, shape_while, shape_three, shape_def, shape_for_other]
+          shape_method, shape_while, shape_three, shape_def, shape_for_other, shape_four, shape_call3]
 
 
 def run_matcher(pattern, tree):
